@@ -312,6 +312,80 @@ theorem c12_ts_taylor_no_selected_events (N : ℕ) (ll : ℝ) (hN : 0 < N) :
     ring
   · simp [LlhSt.evaluate, LlhSt.grad2, hb]
 
+/-! ### `evaluate` as coded (both numerical regimes) -/
+
+/-- the stability threshold of the current source lies in the region the theorems below need -/
+theorem c12_one_plus_alpha_for_current_source :
+    (0 : ℝ) < Gen.C12.onePlusAlpha ∧ (Gen.C12.onePlusAlpha : ℝ) < 1 := by
+  unfold Gen.C12.onePlusAlpha; constructor <;> norm_num
+
+/-- for a stable event the coded per-event quantities are the plain formulas -/
+theorem c12_code_eq_stable (opa ns X : ℝ) (h : opa - 1 < ns * X) :
+    nsGradICode opa ns X = nsGradI ns X ∧ logLambdaICode opa ns X = Transc.log1p (ns * X) := by
+  simp [nsGradICode, logLambdaICode, isStable, h, nsGradI]
+
+/-- **at `ns = 0` every event is in the stable regime** (for any threshold `one_plus_alpha < 1`), so the
+Taylor variant — which asks for the derivatives at `ns = 0` only — never meets the Taylor continuation -/
+theorem c12_all_stable_at_zero (opa : ℝ) (hopa : opa < 1) (X : ℝ) : isStable opa 0 X = true := by
+  simp [isStable]; linarith
+
+theorem C12.code_at_zero (opa : ℝ) (hopa : opa < 1) (N nSel : ℕ) (Xs : List ℝ) :
+    Xs.map (nsGradICode opa 0) = Xs.map (nsGradI 0) ∧ nsGradCode opa N nSel 0 Xs = nsGrad N nSel 0 Xs := by
+  have h : ∀ X : ℝ, nsGradICode opa 0 X = nsGradI 0 X := fun X =>
+    (c12_code_eq_stable opa 0 X (by simp; linarith)).1
+  have hm : Xs.map (nsGradICode opa 0) = Xs.map (nsGradI 0) := List.map_congr_left (fun X _ => h X)
+  exact ⟨hm, by unfold nsGradCode nsGrad; rw [hm]⟩
+
+/-- in a neighbourhood of `ns = 0` every event of a (finite) sample is stable -/
+theorem C12.eventually_all_stable (opa : ℝ) (hopa : opa < 1) (Xs : List ℝ) :
+    ∀ᶠ t in nhds (0 : ℝ), ∀ X ∈ Xs, opa - 1 < t * X := by
+  induction Xs with
+  | nil => simp
+  | cons X Xs ih =>
+    have h1 : ∀ᶠ t in nhds (0 : ℝ), opa - 1 < t * X := by
+      have hc : ContinuousAt (fun t : ℝ => t * X) 0 := (continuous_id.mul continuous_const).continuousAt
+      have h0 : opa - 1 < (fun t : ℝ => t * X) 0 := by simp; linarith
+      exact hc.eventually (lt_mem_nhds h0)
+    filter_upwards [h1, ih] with t ht hrest
+    intro Y hY
+    rcases List.mem_cons.mp hY with rfl | hY
+    · exact ht
+    · exact hrest Y hY
+
+/-- **the Taylor coefficients of the code itself**: `log_lambda` *as coded* (stable branch and Taylor
+continuation, threshold `one_plus_alpha < 1`) has the ns-derivative `grads[ns_pidx]` at `ns = 0`, and
+`grads[ns_pidx]` as coded has the derivative `calculate_ns_grad2` returns from the cache `evaluate` filled -/
+theorem c12_code_taylor_coefficients_at_zero (opa : ℝ) (hopa : opa < 1) (nSel nPure : ℕ) (Xs : List ℝ)
+    (hN : 0 < nSel + nPure) :
+    HasDerivAt (fun t => llrCode opa (nSel + nPure) nSel t Xs) (nsGradCode opa (nSel + nPure) nSel 0 Xs) 0 ∧
+      ∃ b, ((LlhSt.fresh : LlhSt ℝ).evaluateCode opa 0 Xs).grad2Code nSel nPure 0 = .ok b ∧
+        HasDerivAt (fun t => nsGradCode opa (nSel + nPure) nSel t Xs) b 0 := by
+  obtain ⟨h1, h2⟩ := c12_taylor_coefficients_at_zero (nSel + nPure) nSel Xs hN
+  obtain ⟨hm, ha⟩ := C12.code_at_zero opa hopa (nSel + nPure) nSel Xs
+  have hid : Xs.map (nsGradI (0 : ℝ)) = Xs := by
+    have : nsGradI (0 : ℝ) = id := by funext X; simp [nsGradI]
+    rw [this, List.map_id]
+  have ev := C12.eventually_all_stable opa hopa Xs
+  have e1 : (fun t => llrCode opa (nSel + nPure) nSel t Xs) =ᶠ[nhds 0] fun t => llrStable (nSel + nPure) nSel t Xs := by
+    filter_upwards [ev] with t ht
+    unfold llrCode llrStable
+    congr 2
+    exact List.map_congr_left (fun X hX => (c12_code_eq_stable opa t X (ht X hX)).2)
+  have e2 : (fun t => nsGradCode opa (nSel + nPure) nSel t Xs) =ᶠ[nhds 0] fun t => nsGrad (nSel + nPure) nSel t Xs := by
+    filter_upwards [ev] with t ht
+    unfold nsGradCode nsGrad
+    congr 2
+    exact List.map_congr_left (fun X hX => (c12_code_eq_stable opa t X (ht X hX)).1)
+  refine ⟨?_, nsGrad2 (nSel + nPure) nSel 0 Xs, ?_, h2.congr_of_eventuallyEq e2⟩
+  · rw [ha]; exact h1.congr_of_eventuallyEq e1
+  · simp [LlhSt.evaluateCode, LlhSt.grad2Code, LlhSt.grad2, hm, hid]
+
+/-- the Taylor statistic on the object with `evaluate` as coded is the one of the stable-regime model -/
+theorem c12_ts_taylor_on_code (st : LlhSt ℝ) (opa : ℝ) (hopa : opa < 1) (nSel nPure : ℕ) (Xs : List ℝ) :
+    tsTaylorOnCode st opa nSel nPure Xs = tsTaylorOn st (nSel + nPure) nSel Xs := by
+  obtain ⟨hm, ha⟩ := C12.code_at_zero opa hopa (nSel + nPure) nSel Xs
+  simp [tsTaylorOnCode, tsTaylorOn, LlhSt.evaluateCode, LlhSt.evaluate, LlhSt.grad2Code, hm, ha]
+
 /-! ### the LLH-ratio object: `calculate_ns_grad2` uses what `evaluate` cached last -/
 
 /-- the documented `RuntimeError`: nothing evaluated since construction / the last new trial -/
@@ -477,6 +551,107 @@ theorem c12_ts_taylor_computable_multi (parts : List C12.Part) (ll : ℝ)
   rcases split with hneg | ⟨ha, hb⟩
   · exact c12_ts_taylor_nonneg ll _ _ hneg
   · rw [ha, hb]; exact ⟨0, c12_ts_taylor_flat ll, le_refl _⟩
+
+/-! ### the multi-dataset and the ns-profile object -/
+
+/-- what child `j` answers right after the multi-dataset `evaluate` at `ns` -/
+noncomputable def C12.kidG2 (opa ns : ℝ) (d : DsIn ℝ) (f : ℝ) : ℝ :=
+  nsGrad2 (d.nSel + d.nPure) d.nSel (ns * f) (d.Xs.map (nsGradICode opa (ns * f)))
+
+theorem C12.kidsGrad2_after_evaluate (opa ns : ℝ) :
+    ∀ (kids : List (LlhSt ℝ)) (ds : List (DsIn ℝ)) (fs : List ℝ),
+      kids.length = ds.length → fs.length = ds.length →
+      kidsGrad2 (List.zipWith (fun (kd : LlhSt ℝ × DsIn ℝ) f => kd.1.evaluateCode opa (ns * f) kd.2.Xs)
+          (kids.zip ds) fs) ds fs ns
+        = .ok (List.zipWith (C12.kidG2 opa ns) ds fs) := by
+  intro kids
+  induction kids with
+  | nil =>
+    intro ds fs h1 h2
+    have : ds = [] := List.length_eq_zero_iff.mp h1.symm
+    subst this
+    have : fs = [] := List.length_eq_zero_iff.mp h2
+    subst this
+    simp [kidsGrad2]
+  | cons k ks ih =>
+    intro ds fs h1 h2
+    cases ds with
+    | nil => simp at h1
+    | cons d ds =>
+      cases fs with
+      | nil => simp at h2
+      | cons f fs =>
+        simp only [List.length_cons, Nat.add_right_cancel_iff] at h1 h2
+        simp only [List.zip_cons_cons, List.zipWith_cons_cons, kidsGrad2, LlhSt.evaluateCode, LlhSt.grad2Code,
+          LlhSt.grad2]
+        have ih' := ih ds fs h1 h2
+        simp only [LlhSt.evaluateCode] at ih'
+        rw [ih']
+        rfl
+
+/-- the number of children never changes -/
+theorem c12_multi_kids_invariant (st : MultiSt ℝ) (opa ns : ℝ) (fs : List ℝ) (ds : List (DsIn ℝ)) (J : ℕ)
+    (hk : st.kids.length = J) (hd : ds.length = J) (hf : fs.length = J) :
+    (MultiSt.fresh J : MultiSt ℝ).kids.length = J ∧ st.newTrial.kids.length = J ∧
+      (st.evaluate opa ns fs ds).kids.length = J := by
+  refine ⟨by simp [MultiSt.fresh], by simp [MultiSt.newTrial, hk], ?_⟩
+  simp [MultiSt.evaluate, List.length_zipWith, List.length_zip, hk, hd, hf]
+
+/-- `calculate_ns_grad2` before anything was evaluated: the weight-factor service holds nothing -/
+theorem c12_multi_grad2_no_weights (J : ℕ) (ns : ℝ) (ds : List (DsIn ℝ)) :
+    (MultiSt.fresh J : MultiSt ℝ).grad2 ns ds = .error .noWeights := rfl
+
+/-- right after `evaluate` at the same `ns` — whatever the object's earlier state — every child answers
+from the cache that evaluation filled and the result is `Σⱼ bⱼ(ns·fⱼ)·fⱼ²` -/
+theorem c12_multi_grad2_after_evaluate (st : MultiSt ℝ) (opa ns : ℝ) (fs : List ℝ) (ds : List (DsIn ℝ))
+    (hk : st.kids.length = ds.length) (hf : fs.length = ds.length) :
+    (st.evaluate opa ns fs ds).grad2 ns ds
+      = .ok (nsGrad2Multi (List.zipWith (C12.kidG2 opa ns) ds fs) fs) := by
+  have hlen : fs.length = (st.evaluate opa ns fs ds).kids.length := by
+    simp [MultiSt.evaluate, List.length_zipWith, List.length_zip, hk, hf]
+  unfold MultiSt.grad2
+  simp only [MultiSt.evaluate] at hlen ⊢
+  simp only [hlen, ne_eq, not_true_eq_false, if_false]
+  rw [C12.kidsGrad2_after_evaluate opa ns st.kids ds fs hk hf]
+
+/-- after a new trial (and before the next `evaluate`) the children have no cache: `RuntimeError`, for
+any object that has datasets and whose service already holds weights -/
+theorem c12_multi_grad2_after_new_trial (st : MultiSt ℝ) (ns : ℝ) (d : DsIn ℝ) (ds : List (DsIn ℝ))
+    (f : ℝ) (fs : List ℝ) (hfs : st.fs = some (f :: fs)) (hk : st.kids.length = (f :: fs).length) :
+    st.newTrial.grad2 ns (d :: ds) = .error .runtime := by
+  unfold MultiSt.grad2 MultiSt.newTrial
+  simp only [hfs, List.length_map, hk, ne_eq, not_true_eq_false, if_false]
+  cases hkids : st.kids with
+  | nil => rw [hkids] at hk; simp at hk
+  | cons k ks => simp [kidsGrad2, LlhSt.grad2Code, LlhSt.grad2, LlhSt.fresh]
+
+/-- **the Taylor statistic on a multi-dataset object is independent of the object's history** -/
+theorem c12_ts_taylor_multi_history_independent (st : MultiSt ℝ) (opa : ℝ) (fs : List ℝ)
+    (ds : List (DsIn ℝ)) (hk : st.kids.length = ds.length) (hf : fs.length = ds.length) :
+    (tsTaylorOnMulti st opa fs ds).2
+      = .ok (tsApex? (multiNsGrad opa 0 fs ds) (nsGrad2Multi (List.zipWith (C12.kidG2 opa 0) ds fs) fs)) := by
+  simp [tsTaylorOnMulti, c12_multi_grad2_after_evaluate st opa 0 fs ds hk hf]
+
+/-- the ns-profile wrapper: `ns_pidx ≠ 0` is a `ValueError`, otherwise the wrapped ratio answers -/
+theorem c12_prof_grad2 (st : ProfSt ℝ) (nsPidx : ℕ) (ns : ℝ) (ds : List (DsIn ℝ)) :
+    (nsPidx ≠ 0 → st.grad2 nsPidx ns ds = .error .valueError) ∧ st.grad2 0 ns ds = st.inner.grad2 ns ds := by
+  constructor
+  · intro h; simp [ProfSt.grad2, h]
+  · simp [ProfSt.grad2]
+
+/-- the wrapper cannot be evaluated before a trial was initialised (`_logL_0` is `None`); once it was, the
+Taylor statistic is the one of the wrapped multi-dataset ratio, again independent of the history -/
+theorem c12_ts_taylor_prof (st : ProfSt ℝ) (opa ns0 : ℝ) (fs : List ℝ) (ds : List (DsIn ℝ))
+    (hk : st.inner.kids.length = ds.length) (hf : fs.length = ds.length) :
+    (st.logL0 = none → (tsTaylorOnProf st opa fs ds).2 = .error .noLogL0) ∧
+      (tsTaylorOnProf (st.newTrial opa ns0 fs ds) opa fs ds).2
+        = .ok (tsApex? (multiNsGrad opa 0 fs ds) (nsGrad2Multi (List.zipWith (C12.kidG2 opa 0) ds fs) fs)) := by
+  constructor
+  · intro h; simp [tsTaylorOnProf, h]
+  · have hk' : ((st.inner.newTrial.evaluate opa ns0 fs ds)).kids.length = ds.length := by
+      simp [MultiSt.evaluate, MultiSt.newTrial, List.length_zipWith, List.length_zip, hk, hf]
+    simp [tsTaylorOnProf, ProfSt.newTrial, ProfSt.evaluate, ProfSt.grad2,
+      c12_multi_grad2_after_evaluate _ opa 0 fs ds hk' hf]
 
 end deriv
 
